@@ -49,7 +49,7 @@ def register(reg, S):
         ])},
         props=["C11", "C15"]))
     ts_pre = [("wf-sorted", "sorted_ticks(self)"), ("hint-nonneg", "start_iteration_index >= 0"),
-              ("envelope", f"ENV(self) and -{BIG} <= tick <= {BIG}")]
+              ("envelope", f"ENV(self) and -{2*BIG} <= tick <= {2*BIG}")]
     reg.add(Contract(
         "chartparse.sync:BPMEvents.timestamp_at_tick",
         params=dict(self=BES, tick=INT, start_iteration_index=INT), result=TupS([TD, INT]),
@@ -64,7 +64,7 @@ def register(reg, S):
     reg.add(Contract(
         "chartparse.sync:BPMEvents.timestamp_at_tick_no_optimize_return",
         params=dict(self=BES, tick=INT), result=TD,
-        requires=[("wf-sorted", "sorted_ticks(self)"), ("envelope", f"ENV(self) and -{BIG} <= tick <= {BIG}"),
+        requires=[("wf-sorted", "sorted_ticks(self)"), ("envelope", f"ENV(self) and -{2*BIG} <= tick <= {2*BIG}"),
                   ("nonempty-first0", f"{n} >= 1 and self.events[0].tick == 0 and self.resolution >= 1")],
         raises={"ValueError": "tick < 0 or self.events[gov(self, tick)].bpm <= 0"},
         ensures=[("time-is-TS", "result == TS(self, tick)")],
